@@ -8,7 +8,7 @@ EXPLANATION = ("R-PAIR every spawn attaches a fresh CoroutineLocal, Cancel and P
                "pool reuse) is consumed after every suspension point: for every caller of yield_with/yield_with_io/co_yield_with "
                "either the function consumes it on every path to its return, or the event source's yield_back consumes it, or the "
                "source is in the never-injected table; check_cancel consumes whenever the cancel bit is set")
-EXPLANATION_2 = ('stack-reuse rules imported from C13 (fresh CoroutineLocal per spawn, freed at destruction)')
+EXPLANATION_2 = ('stack-reuse rules imported from C13 (fresh CoroutineLocal per spawn, freed at destruction); a coroutine_local initialiser runs while the key map is not borrowed (F31)')
 NOT_DECIDED = "values observed across migration (runtime); exactly-once drop of local values"
 CONFIGS_QUICK = ["default"]
 CONFIGS_THOROUGH = ["default", "nosteal", "bare"]
